@@ -3,12 +3,12 @@
 (* Trace validator for C12 / C13.                                          *)
 (* (i) API level, virtual time: a real SessionPool with real client        *)
 (* Sessions on in-memory transports.                                       *)
-(*   reset consts = [CI, IT, MI] (seconds)                                 *)
+(*   reset consts = [CI, IT (virtual milliseconds), MI]                                 *)
 (*   add{s,streams,t}  the session entered the idle map                    *)
 (*   stream{s,d}       its number of open streams changed by d             *)
 (*   get{res,t,closed} get_idle_session returned session res (0 = none)    *)
 (*   die{s}            the session died for an external reason             *)
-(*   st{t,closed}      state after virtual second t: all closed sessions   *)
+(*   st{t,closed}      state at virtual time t (every reaper tick, and any change between ticks)   *)
 (* The validator owns the map (who is in it, since when) and judges every  *)
 (* reaper tick (t a multiple of CI) by the property's clauses, not by the  *)
 (* code's policy: only stream-less sessions may be closed, only expired    *)
